@@ -296,6 +296,7 @@ def parse_xml(text):
             cov[(i, j)] = cov[(j, i)] = flt[k]
             k += 1
     R["cov"], R["dim"], R["band"], R["nflt"] = cov, dim, band, (k, len(flt))
+    R["ind"] = [int(x) for x in re.findall(r"<ind>(\d+)</ind>", text)]
     R["obs"] = []
     ob = re.search(r"<observations>(.*?)</observations>", text, re.S).group(1)
     for om in re.finditer(r"<(direction|distance|angle|height-diff|slope-distance|zenith-angle|azimuth|dx|dy|dz|coordinate-x|coordinate-y|coordinate-z)(?:\s[^>]*)?>(.*?)</\1>", ob, re.S):
@@ -358,7 +359,7 @@ def oracle_xml(R, net, stdevs):
     # accuracy of the quantile VALUES is C17's subject; this tolerance separates Normal from Student(dof)
     # and Student(dof) from Student(dof +- 1) for the dof generated here
     chk(f"confidence-scale = {'Normal' if R['used'] == 'apriori' else 'Student'}((1-p)/2{'' if R['used'] == 'apriori' else ',dof'})",
-        R["kki"], kk, rtol=2e-3, atol=1e-9, key="kki")
+        R["kki"], kk, rtol=2e-4, atol=1e-9, key="kki")
     m0 = R["apriori"] if R["used"] == "apriori" else R["aposteriori"]
     m0x = sapr if R["used"] == "apriori" else want           # better precision than the printed 8 digits
     n += 1
@@ -384,8 +385,11 @@ def oracle_xml(R, net, stdevs):
         chk(f"ellipse {pid} major^2 = larger eigenvalue of cov", a * a, l1, rtol=4e-7, atol=1e-300, key="ell")
         chk(f"ellipse {pid} minor^2 = smaller eigenvalue of cov", b * b, max(l2, 0.0), atol=4e-7 * tr + 1e-300, key="ell")
         n += 1
-        if not (0 <= al < math.pi):
+        # over the reals 0 <= alpha < pi (C09_ellipse_eigen); in double, atan2(..)/2 = -tiny gives -tiny + M_PI == M_PI
+        if not (0 <= al <= math.pi):
             bad.append((f"ellipse {pid} alpha range", repr(al)))
+        if al == math.pi:
+            mx["alpha_rounded_to_pi"] = mx.get("alpha_rounded_to_pi", 0) + 1
         if tr > 0:
             u = (math.cos(al), math.sin(al))
             r0 = cxx * u[0] + cxy * u[1] - l1 * u[0]
@@ -440,6 +444,38 @@ def oracle_xml(R, net, stdevs):
         else:
             chk(f"{tag} stdev with m0 = 0", o["stdev"], 0.0)
     return bad, n, mx
+
+
+def oracle_text(R, text):
+    """confidence half-widths of the text listing = standard deviation x confidence-scale (1 decimal printed)"""
+    bad, n = [], 0
+    pos = {orig: k for k, orig in enumerate(R["ind"])}
+    kki = R["kki"]
+    num = r"(-?\d+\.\d+(?:e[-+]?\d+)?)"
+
+    def cmp(what, sd_txt, ci_txt, sd):
+        nonlocal n
+        n += 2
+        if sd >= 999 or sd * kki >= 999:
+            return
+        if abs(sd_txt - sd) > 0.0501 + 1e-6 * sd:
+            bad.append((what + " std.dev", f"printed={sd_txt} xml={sd!r}"))
+        if abs(ci_txt - sd * kki) > 0.0501 + 1e-6 * sd * kki:
+            bad.append((what + " conf.i. = std.dev x confidence-scale", f"printed={ci_txt} std.dev={sd!r} scale={kki!r} product={sd * kki!r}"))
+
+    sec = re.search(r"\nAdjusted coordinates\n\*+\n(.*?)\n\n\n", text, re.S)
+    if sec and len(R["ind"]) == R["dim"]:
+        for m in re.finditer(rf"^\s*(\d+)\s+[xyzXYZ*]+\s+{num}\s+{num}\s+{num}\s+{num}\s+{num}\s*$", sec.group(1), re.M):
+            i = int(m.group(1))
+            if i in pos:
+                cmp(f"text: unknown {i}", float(m.group(5)), float(m.group(6)), math.sqrt(max(R["cov"][(pos[i], pos[i])], 0.0)))
+    sec = re.search(r"\nAdjusted observations\n\*+\n(.*?)\n\n\n", text, re.S)
+    if sec:
+        for m in re.finditer(rf"^\s*(\d+)\s.*?\s{num}\s+{num}\s*$", sec.group(1), re.M):
+            i = int(m.group(1))
+            if 1 <= i <= len(R["obs"]) and R["obs"][i - 1]["stdev"] is not None:
+                cmp(f"text: adjusted observation {i}", float(m.group(2)), float(m.group(3)), R["obs"][i - 1]["stdev"])
+    return bad, n
 
 
 def oracle_pair(R1, R2, s1, s2):
@@ -504,8 +540,8 @@ def libgama_objects(ctx):
     return d, objs
 
 
-def run_gama(gama, gkf_path, xml_path):
-    rc, out, err = sh([str(gama), str(gkf_path), "--xml", str(xml_path), "--text", "/dev/null"], timeout=120)
+def run_gama(gama, gkf_path, xml_path, text_path="/dev/null"):
+    rc, out, err = sh([str(gama), str(gkf_path), "--xml", str(xml_path), "--text", str(text_path)], timeout=120)
     if rc != 0 or not Path(xml_path).exists():
         return None, rc, (out + err)[-400:]
     t = Path(xml_path).read_text(errors="replace")
@@ -611,10 +647,27 @@ def check_cases(ctx, corr, cases, exe, gama, tmp, do_pairs=True):
     corr.maxstat("max_rel_dev_model_vs_impl", maxdev)
     corr.stats.setdefault("max_rel_dev_model_vs_impl", 0.0)
 
+    # ---- conf_pr(double) guard: accepted exactly on (0,1)
+    ps = [0.0, 1.0, -0.0, -1e-300, 5e-324, 1 - 2 ** -53, 1 + 2 ** -52, 0.5, 0.95, 2.0, -3.0, float("inf"), float("-inf"), float("nan")]
+    ps += [ctx.rng.uniform(-0.5, 1.5) for _ in range(40)]
+    acc = [[f"accept {float2hex(p)}" for p in ps]]
+    ai, acr = run_cases(exe, acc)
+    am, _ = run_cases(ctx.driver("drv_stats"), acc)
+    for p, a, b in zip(ps, ai[0], am[0]):
+        corr.case(key=("accept", float2hex(p)))
+        if a != b:
+            corr.disagree("stats:conf_pr-guard", [f"accept {p!r}"], [a], [b])
+        if p == p and (a == "flag 1") != (0 < p < 1):     # NaN: not a real number, outside the property (model and C++ both store it)
+            corr.fail("conf_pr(double) accepts a probability outside (0,1) or refuses one inside", {"conf_pr": repr(p), "impl": a},
+                      "LocalNetwork::conf_pr")
+    if acr or len(ai[0]) != len(ps):
+        corr.disagree("stats:conf_pr-guard", acc[0][:3], ai[0][:3], am[0][:3], "harness crashed / line count")
+
     # ---- oracle on the XML result of gama-local
     for i, c in enumerate(cases):
         xmlp = tmp / f"n{i}.xml"
-        R, rc, tail = run_gama(gama, c["path"], xmlp)
+        txtp = tmp / f"n{i}.txt"
+        R, rc, tail = run_gama(gama, c["path"], xmlp, txtp)
         c["R"] = R
         par = c["net"]["params"]
         if R is None:
@@ -635,17 +688,26 @@ def check_cases(ctx, corr, cases, exe, gama, tmp, do_pairs=True):
         for kx, vx in mx.items():
             if kx == "obs_skipped":
                 corr.count("xml_obs_checks_skipped", vx)
+            elif kx == "alpha_rounded_to_pi":
+                corr.count("ellipse_alpha_rounded_to_M_PI", vx)
             else:
                 corr.maxstat("max_err_over_allowed_" + kx, round(vx, 4))
+        if txtp.exists():
+            bt, nt = oracle_text(R, txtp.read_text(errors="replace"))
+            bad += bt
+            n += nt
+            corr.count("text_halfwidths_checked", nt // 2)
+            for _ in range(nt):
+                corr.case(key=None)
         if bad:
-            corr.fail("XML result field inconsistent with the other fields: " + bad[0][0],
+            corr.fail("result field inconsistent with the other fields: " + bad[0][0],
                       payload(c, {"violations": [list(b) for b in bad[:8]], "oracle": "xml"}),
                       "LocalNetworkXML / LocalNetwork statistics", "\n".join(f"{a}: {b}" for a, b in bad[:8]))
     # ---- metamorphic pair: same network, another sigma-apr
     if do_pairs:
         npairs = 0
         for i, c in enumerate(cases):
-            if c.get("R") is None or npairs >= ctx.size(100, 1500):
+            if c.get("R") is None or npairs >= ctx.size(150, 3000):
                 continue
             s1 = float(c["net"]["params"]["sigma-apr"])
             s2 = ctx.rng.choice([s for s in SIGMAS if s != s1])
@@ -677,7 +739,7 @@ def correspond(ctx, corr):
                         includes=[ctx.verif / "harness"])
     tmp = Path(tempfile.mkdtemp(prefix="c09-", dir=str(ctx.build)))
     try:
-        cases = build_cases(ctx, tmp, ctx.size(300, 4000))
+        cases = build_cases(ctx, tmp, ctx.size(500, 12000))
         check_cases(ctx, corr, cases, exe, d / "gama-local", tmp)
         adjusted = sum(1 for c in cases if c.get("R") is not None)
         corr.count("networks", len(cases))
